@@ -14,33 +14,33 @@ From Cb Require Import C06.Model.
 Definition pop_destructor_scope_pin (st : state) : state :=
   let st1 := match dts st with
              | [] => st
-             | l :: r => run_destructors l (mk (dfs st) r (scd st) (tr st))
+             | l :: r => run_destructors l (mk (dfs st) r (vars st) (tr st))
              end in
   pop_defer_scope st1.
 
 (* cleanup.cpp: pop_scope_pin - same, then variable_manager_->pop_scope_pin() *)
 Definition pop_scope_pin (st : state) : state :=
   let st1 := pop_destructor_scope_pin st in
-  mk (dfs st1) (dts st1) (pred (scd st1)) (tr st1).
+  mk (dfs st1) (dts st1) (tl (vars st1)) (tr st1).
 
 (* cleanup.cpp: execute_pre_return_cleanup - innermost defers (level popped ONLY IF non-empty),
    then innermost destructors (level popped ONLY IF non-empty, after they ran) *)
 Definition pre_return_cleanup_pin (st : state) : state :=
   let st1 := match dfs st with
-             | ((_ :: _) as l) :: r => emit (map EDefer (rev l)) (mk r (dts st) (scd st) (tr st))
+             | ((_ :: _) as l) :: r => emit (map EDefer (rev l)) (mk r (dts st) (vars st) (tr st))
              | _ => st
              end in
   match dts st1 with
   | ((_ :: _) as l) :: _ =>
       let st2 := run_destructors l st1 in
-      mk (dfs st2) (tl (dts st2)) (scd st2) (tr st2)
+      mk (dfs st2) (tl (dts st2)) (vars st2) (tr st2)
   | _ => st1
   end.
 
 (* declaration.cpp:2413 + interpreter.cpp call_constructor: register, then push_scope, constructor
    body (println("ctor", k)), pop_scope *)
-Definition declare_obj_pin (k : nat) (st : state) : state :=
-  pop_scope_pin (emit [ECtor k] (push_scope (register_destructor k st))).
+Definition declare_obj_pin (x : nat) (t : ty) (id : nat) (st : state) : state :=
+  pop_scope_pin (emit (map ctor_ev (obj_parts t id)) (push_scope (register_obj x t (bind_obj x t id st)))).
 
 (* statement_list_executor.cpp: execute_compound_statement - every one of the four arms pops *)
 Definition compound_close_pin (r : option (outcome * state)) : option (outcome * state) :=
@@ -49,32 +49,32 @@ Definition compound_close_pin (r : option (outcome * state)) : option (outcome *
   | Some (o, st) => Some (o, pop_destructor_scope_pin st)
   end.
 
-Fixpoint pexec (fuel : nat) (p : prog) (it : option nat) (s : stmt) (st : state)
+Fixpoint pexec (fuel : nat) (p : prog) (n : nat) (it : option nat) (s : stmt) (st : state)
   : option (outcome * state) :=
   match fuel with
   | O => None
   | S f =>
     match s with
-    | SObj k => Some (ONormal, declare_obj_pin k st)
-    | SDefer k => Some (ONormal, defer_stmt k st)
+    | SObj x t k => Some (ONormal, declare_obj_pin x t (oid n k) st)
+    | SDefer k => Some (ONormal, defer_stmt (oid n k) st)
     | SMark k => Some (ONormal, emit [EMark k] st)
-    | SBlock b => compound_close_pin (pexec_b f p it b (push_destructor_scope st))
+    | SBlock b => compound_close_pin (pexec_b f p n it b (push_destructor_scope st))
     | SIf c t e =>
-        if cond_true it c then compound_close_pin (pexec_b f p it t (push_destructor_scope st))
+        if cond_true n it c then compound_close_pin (pexec_b f p n it t (push_destructor_scope st))
         else match e with
              | BNil => Some (ONormal, st)
-             | _ => compound_close_pin (pexec_b f p it e (push_destructor_scope st))
+             | _ => compound_close_pin (pexec_b f p n it e (push_destructor_scope st))
              end
-    | SLoop n b =>
+    | SLoop m b =>
         (* control_flow_executor.cpp: push_defer_scope; iterations; pop_defer_scope - a ReturnException
            passes through both loop executors WITHOUT the pop *)
-        match ploop f p n 0 b (push_defer_scope st) with
+        match ploop f p n m 0 b (push_defer_scope st) with
         | None => None
         | Some (ORet, st') => Some (ORet, st')
         | Some (_, st') => Some (ONormal, pop_defer_scope st')
         end
     | SCall g =>
-        match pexec_b f p None (body p g) (push_scope st) with
+        match pexec_b f p (pred n) None (body p g) (push_scope st) with
         | None => None
         | Some (o, st') => Some (call_outcome o, guard_report g st (pop_scope_pin st'))
         end
@@ -83,7 +83,7 @@ Fixpoint pexec (fuel : nat) (p : prog) (it : option nat) (s : stmt) (st : state)
     | SCont => Some (OCont, st)
     end
   end
-with pexec_b (fuel : nat) (p : prog) (it : option nat) (b : block) (st : state)
+with pexec_b (fuel : nat) (p : prog) (n : nat) (it : option nat) (b : block) (st : state)
   : option (outcome * state) :=
   match fuel with
   | O => None
@@ -91,23 +91,23 @@ with pexec_b (fuel : nat) (p : prog) (it : option nat) (b : block) (st : state)
     match b with
     | BNil => Some (ONormal, st)
     | BCons s r =>
-        match pexec f p it s st with
+        match pexec f p n it s st with
         | None => None
-        | Some (ONormal, st') => pexec_b f p it r st'
+        | Some (ONormal, st') => pexec_b f p n it r st'
         | Some (o, st') => Some (o, st')
         end
     end
   end
-with ploop (fuel : nat) (p : prog) (n i : nat) (b : block) (st : state)
+with ploop (fuel : nat) (p : prog) (n : nat) (m i : nat) (b : block) (st : state)
   : option (outcome * state) :=
   match fuel with
   | O => None
   | S f =>
-    if n <=? i then Some (ONormal, st)
-    else match compound_close_pin (pexec_b f p (Some i) b (push_destructor_scope st)) with
+    if m <=? i then Some (ONormal, st)
+    else match compound_close_pin (pexec_b f p n (Some i) b (push_destructor_scope st)) with
          | None => None
-         | Some (ONormal, st') => ploop f p n (S i) b st'
-         | Some (OCont, st') => ploop f p n (S i) b st'
+         | Some (ONormal, st') => ploop f p n m (S i) b st'
+         | Some (OCont, st') => ploop f p n m (S i) b st'
          | Some (OBrk, st') => Some (ONormal, st')
          | Some (ORet, st') => Some (ORet, st')
          end
@@ -115,8 +115,8 @@ with ploop (fuel : nat) (p : prog) (n i : nat) (b : block) (st : state)
 
 (* interpreter.cpp Interpreter::process: push_scope; body; pop_scope_pin (also in the ReturnException arm).
    A Break/Continue that escapes is not caught: the run aborts (flag false, nothing popped). *)
-Definition prun (fuel : nat) (p : prog) : option (bool * state) :=
-  match pexec_b fuel p None (body p 0) (push_scope init_state) with
+Definition prun (fuel : nat) (p : prog) (n0 : nat) : option (bool * state) :=
+  match pexec_b fuel p n0 None (body p 0) (push_scope init_state) with
   | None => None
   | Some (ONormal, st) => Some (true, pop_scope_pin st)
   | Some (ORet, st) => Some (true, pop_scope_pin st)
@@ -124,7 +124,7 @@ Definition prun (fuel : nat) (p : prog) : option (bool * state) :=
   end.
 
 
-Definition is_obj (s : stmt) : bool := match s with SObj _ => true | _ => false end.
+Definition is_obj (s : stmt) : bool := match s with SObj _ _ _ => true | _ => false end.
 Definition is_defer (s : stmt) : bool := match s with SDefer _ => true | _ => false end.
 
 (* which of the three formerly defective shapes a program contains (harness: input histogram) *)
@@ -153,7 +153,7 @@ with has_mix_b (so sd : bool) (b : block) : bool :=
   match b with
   | BNil => false
   | BCons s r =>
-      (match s with SObj _ => sd | SDefer _ => so | _ => false end)
+      (match s with SObj _ _ _ => sd | SDefer _ => so | _ => false end)
       || has_mix_s s || has_mix_b (so || is_obj s) (sd || is_defer s) r
   end.
 
@@ -180,45 +180,44 @@ Definition shapes (p : prog) : bool * bool * bool :=
 (* ---- the historical witnesses (pinned machine vs Spec) *)
 Fixpoint blk (l : list stmt) : block := match l with [] => BNil | s :: r => BCons s (blk r) end.
 
-(* #11: int f1(){ R o1(1); return 0; }  main: R o100(100); mark 1; f1(); mark 2 *)
-Definition w11 : prog := [blk [SObj 100; SMark 1; SCall 1; SMark 2]; blk [SObj 1; SRet]].
-(* #43: main: { R o1(1); defer 1; defer 2; R o3(3); } *)
-Definition w43 : prog := [blk [SBlock (blk [SObj 1; SDefer 1; SDefer 2; SObj 3])]].
+(* #11: int f1(){ R x1(1); return 0; }  main: R x0(100)...; mark 1; f1(); mark 2   (ids at depth 0) *)
+Definition w11 : prog := [blk [SObj 0 TR 90; SMark 1; SCall 1; SMark 2]; blk [SObj 1 TR 1; SRet]].
+(* #43: main: { R x1(1); defer 1; defer 2; R x3(3); } *)
+Definition w43 : prog := [blk [SBlock (blk [SObj 1 TR 1; SDefer 1; SDefer 2; SObj 3 TR 3])]].
 (* #44: f1: for(i<3){ if (i==1) { return; } }   main: defer 1; { defer 2; f1(); mark 3 } mark 4 *)
 Definition w44 : prog :=
   [blk [SDefer 1; SBlock (blk [SDefer 2; SCall 1; SMark 3]); SMark 4];
    blk [SLoop 3 (blk [SIf (CIter 1) (blk [SRet]) BNil])]].
-(* #11 twice: main: R o1(1); f1(); f1(); R o2(2)  - o2 is never destroyed *)
-Definition wnever : prog := [blk [SObj 1; SCall 1; SCall 1; SObj 2]; blk [SObj 9; SRet]].
+(* #11 twice: main: R x1(1); f1(); f1(); R x2(2)  - x2 is never destroyed *)
+Definition wnever : prog := [blk [SObj 1 TR 1; SCall 1; SCall 1; SObj 2 TR 2]; blk [SObj 9 TR 9; SRet]].
 (* return in main after an object: transcript as demanded, destructor stack one level short *)
-Definition wmain : prog := [blk [SObj 1; SRet]].
+Definition wmain : prog := [blk [SObj 1 TR 1; SRet]].
 
 Lemma w11_run :
-  prun 20 w11 = Some (true, mk [] [] 1
-     [ECtor 100; EMark 1; ECtor 1; EDtor 1; EDtor 100; EImb 1 1 1 2 1 2 2; EMark 2]) /\
-  srun 20 w11 = Some (true, [ECtor 100; EMark 1; ECtor 1; EDtor 1; EMark 2; EDtor 100]).
+  prun 20 w11 0 = Some (true, mk [] [] [[]]
+     [ECtor TR 90; EMark 1; ECtor TR 1; EDtor TR 1; EDtor TR 90; EImb 1 1 1 2 1 2 2; EMark 2]) /\
+  srun 20 w11 0 = Some (true, [ECtor TR 90; EMark 1; ECtor TR 1; EDtor TR 1; EMark 2; EDtor TR 90]).
 Proof. split; vm_compute; reflexivity. Qed.
 
 Lemma w43_run :
-  prun 20 w43 = Some (true, mk [] [[]] 1
-     [ECtor 1; EReg 1; EReg 2; ECtor 3; EDtor 3; EDtor 1; EDefer 2; EDefer 1]) /\
-  srun 20 w43 = Some (true, [ECtor 1; EReg 1; EReg 2; ECtor 3; EDefer 2; EDefer 1; EDtor 3; EDtor 1]).
+  prun 20 w43 0 = Some (true, mk [] [[]] [[]]
+     [ECtor TR 1; EReg 1; EReg 2; ECtor TR 3; EDtor TR 3; EDtor TR 1; EDefer 2; EDefer 1]) /\
+  srun 20 w43 0 = Some (true, [ECtor TR 1; EReg 1; EReg 2; ECtor TR 3; EDefer 2; EDefer 1; EDtor TR 3; EDtor TR 1]).
 Proof. split; vm_compute; reflexivity. Qed.
 
 Lemma w44_run :
-  prun 30 w44 = Some (true, mk [[1]] [[]] 1
+  prun 30 w44 0 = Some (true, mk [[1]] [[]] [[]]
      [EReg 1; EReg 2; EImb 1 2 3 3 3 2 2; EMark 3; EMark 4; EDefer 2]) /\
-  srun 30 w44 = Some (true, [EReg 1; EReg 2; EMark 3; EDefer 2; EMark 4; EDefer 1]).
+  srun 30 w44 0 = Some (true, [EReg 1; EReg 2; EMark 3; EDefer 2; EMark 4; EDefer 1]).
 Proof. split; vm_compute; reflexivity. Qed.
 
 Lemma wnever_run :
-  prun 20 wnever = Some (true, mk [] [] 1
-     [ECtor 1; ECtor 9; EDtor 9; EDtor 1; EImb 1 1 1 2 1 2 2; ECtor 9; EDtor 9; EImb 1 1 1 1 0 2 2; ECtor 2]) /\
-  srun 20 wnever = Some (true, [ECtor 1; ECtor 9; EDtor 9; ECtor 9; EDtor 9; ECtor 2; EDtor 2; EDtor 1]).
-Proof. split; vm_compute; reflexivity. Qed.
+  srun 20 wnever 0 = Some (true, [ECtor TR 1; ECtor TR 9; EDtor TR 9; ECtor TR 9; EDtor TR 9; ECtor TR 2; EDtor TR 2; EDtor TR 1]) /\
+  exists st, prun 20 wnever 0 = Some (true, st) /\ dts st = [] /\
+    tr st = [ECtor TR 1; ECtor TR 9; EDtor TR 9; EDtor TR 1; EImb 1 1 1 2 1 2 2; ECtor TR 9; EDtor TR 9; EImb 1 1 1 1 0 2 2; ECtor TR 2].
+Proof. split; [vm_compute; reflexivity|]. eexists; split; [vm_compute; reflexivity|]. split; reflexivity. Qed.
 
 Lemma wmain_run :
-  prun 20 wmain = Some (true, mk [] [] 1 [ECtor 1; EDtor 1]) /\
-  srun 20 wmain = Some (true, [ECtor 1; EDtor 1]).
+  prun 20 wmain 0 = Some (true, mk [] [] [[]] [ECtor TR 1; EDtor TR 1]) /\
+  srun 20 wmain 0 = Some (true, [ECtor TR 1; EDtor TR 1]).
 Proof. split; vm_compute; reflexivity. Qed.
-
